@@ -383,6 +383,19 @@ pub trait VNow: std::future::Future + Sized {
     }
 }
 impl<F: std::future::Future> VNow for F {}
+/// `stream.next().await` inside a lowered run loop: the next item if one is ready now, else `None` ("stop waiting").
+pub trait VNowOrNone<T>: std::future::Future<Output = Option<T>> + Sized {
+    fn vnow_or_none(self) -> Option<T> {
+        let mut f = std::pin::pin!(self);
+        let w = noop_waker();
+        let mut cx = std::task::Context::from_waker(&w);
+        match f.as_mut().poll(&mut cx) {
+            std::task::Poll::Ready(v) => v,
+            std::task::Poll::Pending => None,
+        }
+    }
+}
+impl<T, F: std::future::Future<Output = Option<T>>> VNowOrNone<T> for F {}
 
 include!("select.rs");
 include!("select_now.rs");
